@@ -595,6 +595,8 @@ def grid(tier):
         if n >= 5:
             for edge in (False, True):
                 add("FirstDerivative", dims=[n], kind="centered", edge=edge, order=5)
+    add("FirstDerivative", dims=[3], kind="centered", order=5, edge=True)   # degenerate: known finding C01-fd-c5-edge-n3
+    add("FirstDerivative", dims=[4], kind="centered", order=5, edge=True)
     for kind in ("forward", "backward", "centered"):
         for edge in (False, True):
             add("Laplacian", dims=[4, 5], axes=[0, 1], weights=[1, 2], sampling=[1, 0.5], edge=edge, kind=kind)
